@@ -32,6 +32,7 @@ class HAProxyProtocolWrapper(policies.ProtocolWrapper):
         super().__init__(factory, wrappedProtocol)
         self._proxyInfo: Optional[_info.ProxyInfo] = None
         self._parser: Union[V2Parser, V1Parser, None] = None
+        self._buffer = b""
 
     def dataReceived(self, data: bytes) -> None:
         if self._proxyInfo is not None:
@@ -39,13 +40,21 @@ class HAProxyProtocolWrapper(policies.ProtocolWrapper):
 
         parser = self._parser
         if parser is None:
-            if (
-                len(data) >= 16
-                and data[:12] == V2Parser.PREFIX
-                and ord(data[12:13]) & 0b11110000 == 0x20
+            # The header may arrive in arbitrarily small pieces: keep what has
+            # been received until it is known which version (if any) this is.
+            data = self._buffer + data
+            self._buffer = b""
+            if data[:12] == V2Parser.PREFIX[: len(data)] and (
+                len(data) < 13 or ord(data[12:13]) & 0b11110000 == 0x20
             ):
+                if len(data) < 16:
+                    self._buffer = data
+                    return None
                 self._parser = parser = V2Parser()
-            elif len(data) >= 8 and data[:5] == V1Parser.PROXYSTR:
+            elif data[:5] == V1Parser.PROXYSTR[: len(data)]:
+                if len(data) < 5:
+                    self._buffer = data
+                    return None
                 self._parser = parser = V1Parser()
             else:
                 self.loseConnection()
